@@ -56,6 +56,8 @@ def run_shard(spec, acc):
     if k == "histories":
         for i in range(spec["pools"]):
             histories(rnd, spec["interleavings"], acc, sample=(i == 0))
+            for _ in range(6):
+                layer_rule_two_architectures(rnd, acc)
     elif k == "permutations":
         for i in range(spec["n"]):
             permutations(rnd, acc)
@@ -160,6 +162,52 @@ def histories(rnd, n_inter, acc, sample=False):
         acc.sample({"kind": "history", "modules": mods, "imports": imps, "pool_size": len(pool), "first_rules": case["pool"][:3]})
 
 
+def layer_rule_two_architectures(rnd, acc):
+    """ONE LayerRule object (and ONE LayeredArchitecture) applied to two architectures whose module sets differ: a
+    regex-defined layer matches a class of top-level modules of which one exists only in the bigger architecture.
+    Outcome and message on each architecture must equal those of a fresh, equal rule that never saw the other."""
+    tops = rnd.sample(["r.a", "r.b", "r.c", "r.d", "r.e", "r.f", "r.ab", "r.a_b"], 6)
+    big = ["r"] + tops + [t + ".s" for t in tops if rnd.random() < 0.5]
+    only_big = tops[5]
+    small = [m for m in big if m != only_big and not m.startswith(only_big + ".")]
+    imps_big = random_imports(rnd, big, k_max=12)
+    for _ in range(2):  # make the module that only the bigger architecture has take part
+        imps_big.append(rnd.choice([(tops[0], only_big), (only_big, tops[0]), (tops[0] + ".s" if tops[0] + ".s" in big else tops[0], only_big)]))
+    imps_big = sorted(set(imps_big))
+    layers = {"L0": [tops[0]], "L1": [tops[1]], "L2": [tops[2]], "LX": [tops[4], only_big]}
+    kinds = {"L0": "named", "L1": rnd.choice(["named", "regex"]), "L2": rnd.choice(["named", "regex"]), "LX": "regex"}
+    for _k in range(4):
+        names = ["L0", "L1", "L2", "LX"]
+        subject = rnd.choice(names[:3])
+        objects = rnd.sample([n for n in names if n != subject], rnd.randint(1, 2))
+        cfg = {"verb": rnd.choice(rrule.VERBS), "dir": rnd.choice(rrule.DIRS), "exc": rnd.random() < 0.5, "anything": False, "subject": subject, "objects": objects}
+        two_architectures_case({"kind": "layer-two-architectures", "big": big, "small": small, "imps_big": imps_big, "layers": layers, "kinds": kinds, "cfg": cfg}, acc)
+
+
+def two_architectures_case(case, acc):
+    big, small, layers, kinds, cfg = case["big"], case["small"], case["layers"], case["kinds"], case["cfg"]
+    imps_big = [tuple(i) for i in case["imps_big"]]
+    imps_small = [(a, b) for a, b in imps_big if a in small and b in small]
+    archs = {"big": build(big, imps_big), "small": build(small, imps_small)}
+    HUB.case = case
+    factory = lambda: c05.make_rule(c05.make_arch(layers, kinds, False), cfg, False)  # noqa: E731
+    fresh = {k: run(factory(), ev) for k, ev in archs.items()}
+    for order in (("small", "big"), ("big", "small"), ("small", "big", "small")):
+        rule = factory()
+        for pos, k in enumerate(order):
+            out = run(rule, archs[k])
+            acc.evaluated()
+            acc.count("history_comparisons")
+            if pos:
+                acc.count("layer_rule_reapplied_to_other_architecture")
+                if "LX" not in (cfg["subject"], *cfg["objects"]):
+                    acc.count("layer_rule_reapplied_with_unmentioned_regex_layer")
+            if out != fresh[k]:
+                HUB.violation("C15", "history-dependent-outcome:layer:other-architecture-first", f"layer rule object applied to {' then '.join(order[: pos + 1])} gave another outcome/message on '{k}' than a fresh equal rule", {"cfg": cfg, "order": list(order), "fresh": fresh[k], "in_history": out})
+    if any(o == "fail" for o, _m in fresh.values()):
+        acc.nontrivial(case)
+
+
 # -- permuted arguments ---------------------------------------------------------------------------------------
 
 
@@ -231,6 +279,18 @@ def enumeration(rnd, acc, sample=False):
     from pytestarch import get_evaluable_architecture
 
     spec = trees.random_project(rnd, depth=3, imports_per_file=(0, 3), externals=0.15)
+    all_d = [d for d in trees.all_dirs(spec)]
+    if rnd.random() < 0.35 and len(all_d) >= 3:
+        # a package reachable under a second name through a directory symlink placed outside of it
+        target = rnd.choice([d for d in all_d if d])
+        depth = lambda d: d.count("/") + 1 if d else 0  # noqa: E731
+        # the second name is at least as deep as the first one: relative imports written for the package's real
+        # location then never reach beyond the root (which would be an illegal program, outside the property)
+        homes = [d for d in all_d if d != target and not d.startswith(target + "/") and depth(d) + 1 >= depth(target)]
+        if homes:
+            home = rnd.choice(homes)
+            spec["symlinks"] = [((home + "/" if home else "") + "lnk", target)]
+            acc.count("enumeration_trees_with_symlinked_package")
     root = trees.write_tree(spec)
     case = {"kind": "enumeration", "spec": spec}
     try:
@@ -405,13 +465,15 @@ def replay(case, acc):
                 HUB.violation("C15", f"argument-order-dependent:{rrule.shape(cfg)}", "permuting the listed subjects/objects changed the outcome", {"cfg": cfg, "permuted": c2})
     elif case["kind"] == "hashseeds":
         hashseeds(8, acc)
+    elif case["kind"] == "layer-two-architectures":
+        two_architectures_case(case, acc)
     else:
         acc.mark_inconclusive(f"case kind {case['kind']} is replayed by re-running the check with the recorded seed")
 
 
 def floors(acc, tier):
     why = []
-    for c, n in (("purity_snapshots", 5000), ("history_comparisons", 3000), ("interleavings", 50), ("re_applications", 500), ("evaluations_on_another_architecture", 100), ("argument_permutations", 300), ("enumerations_shuffled", 50), ("hash_seed_runs", 8), ("threaded_evaluations", 100)):
+    for c, n in (("purity_snapshots", 5000), ("history_comparisons", 3000), ("interleavings", 50), ("re_applications", 500), ("evaluations_on_another_architecture", 100), ("layer_rule_reapplied_with_unmentioned_regex_layer", 100), ("enumeration_trees_with_symlinked_package", 5), ("argument_permutations", 300), ("enumerations_shuffled", 50), ("hash_seed_runs", 8), ("threaded_evaluations", 100)):
         if acc.counters[c] < n:
             why.append(f"{c}: only {acc.counters[c]}")
     return why
